@@ -5,17 +5,22 @@ Line-protocol driver for component `journal` (model `PSO.Journal`).
 One command per line, tokens separated by single spaces, bytes as lower-case hex (`-` = empty).
 
   new <verhex>                      fresh journal (file did not exist), APP_VERSION bytes given
-  load <filehex> <meta|none>        open an arbitrary disk image
+  load <filehex> <meta|none> [<jthex>]   open an arbitrary disk image (optional left-over `<journal>.tmp`;
+                                    the APP_VERSION of the last `new` is kept)
   add <idx> <term> <cmdhex> | clear | delfrom <n> | delto <n> | setci <v> | timer | reopen
                                     -> `ok <summary> P <prims>`  or  `err <kind>` (state unchanged)
   img                               -> hex of the journal file
   ents                              -> `idx:term:len:adler,...` of the cached entry list
   crash <k> <t> <op ...>            -> crash image of <op> at the current state (state unchanged):
                                        `ok np=<#prims> <disk> | <open summary>`
-  crashimg <k> <t> <op ...>         -> hex of that crash image
+  crashimg <k> <t> <op ...>         -> hex of the journal file of that crash image
+  crashjt <k> <t> <op ...>          -> hex of `<journal>.tmp` in that crash image, or `absent`
+  jt                                -> hex of the current `<journal>.tmp`, or `absent`
 
-summary = `len= cur= ci= saved= fsize= fsum= meta= tmp=`; prims = `R<n>`, `S<off>:<len>:<adler>`,
-`TC`, `TW<v|none>`, `TM`, comma separated (`-` = none).
+summary = `len= cur= ci= saved= fsize= fsum= meta= tmp= jt=<absent|len:adler>`; prims = `R<n>`,
+`S<off>:<len>:<adler>`, `TC`, `TW<v|none>`, `TM`, and on `<journal>.tmp`: `JR` (remove), `JC` (create empty),
+`JW<len>:<adler>` (header written), `JZ<n>` (resize), `JS<off>:<len>:<adler>` (store), `JM` (rename onto the
+journal); comma separated (`-` = none). Torn `JW`/`JS` (>4 bytes) = prefix; `JS` of the header word is atomic.
 -/
 namespace Driver.Journal
 open PSO PSO.Journal
@@ -59,12 +64,22 @@ def primStr : Prim → String
   | .tmpCreate => "TC"
   | .tmpWrite v => "TW" ++ optStr v
   | .tmpMove => "TM"
+  | .jtRemove => "JR"
+  | .jtCreate => "JC"
+  | .jtWrite bs => s!"JW{bs.length}:{adler bs}"
+  | .jtResize n => s!"JZ{n}"
+  | .jtStore off bs => s!"JS{off}:{bs.length}:{adler bs}"
+  | .jtRename => "JM"
 
 def primsStr (ps : List Prim) : String :=
   if ps.isEmpty then "-" else ",".intercalate (ps.map primStr)
 
+def jtStr : Option Bytes → String
+  | none => "absent"
+  | some f => s!"{f.length}:{adler f}"
+
 def diskStr (d : Disk) : String :=
-  s!"fsize={d.file.length} fsum={adler d.file} meta={optStr d.metaFile} tmp={tmpStr d.tmp}"
+  s!"fsize={d.file.length} fsum={adler d.file} meta={optStr d.metaFile} tmp={tmpStr d.tmp} jt={jtStr d.jtmp}"
 
 def summary (j : FJ) : String :=
   s!"len={j.entries.length} cur={j.cur} ci={j.commitIndex} saved={if j.metaSaved then 1 else 0} " ++ diskStr j.disk
@@ -100,9 +115,12 @@ def handle (j : FJ) (line : String) : FJ × String :=
   let toks := line.splitOn " "
   match toks with
   | ["new", v] => let j' := create (fromHex v); (j', "ok " ++ summary j')
-  | ["load", f, m] =>
-    let d : Disk := { file := fromHex f, metaFile := m.toNat? }
-    match openDisk d with
+  | "load" :: f :: m :: rest =>
+    let jt : Option Bytes := match rest with
+      | [x] => some (fromHex x)
+      | _ => none
+    let d : Disk := { file := fromHex f, metaFile := m.toNat?, jtmp := jt }
+    match openDisk j.ver d with
     | .ok (j', ps) => (j', "ok " ++ summary j' ++ " P " ++ primsStr ps)
     | .error e => (j, "err " ++ errStr e)
   | ["img"] => (j, toHex j.disk.file)
@@ -112,7 +130,7 @@ def handle (j : FJ) (line : String) : FJ × String :=
     | some k, some t, some op =>
       let ps := opPrims j op
       let d := crashDisk j.disk ps k t
-      let o := match openDisk d with
+      let o := match openDisk j.ver d with
         | .ok (j', _) => s!"len={j'.entries.length} cur={j'.cur} ci={j'.commitIndex} ents={entsStr j'.entries}"
         | .error e => "err " ++ errStr e
       (j, s!"ok np={ps.length} {diskStr d} | {o}")
@@ -121,6 +139,16 @@ def handle (j : FJ) (line : String) : FJ × String :=
     match k.toNat?, t.toNat?, parseOp rest with
     | some k, some t, some op => (j, toHex (crashDisk j.disk (opPrims j op) k t).file)
     | _, _, _ => (j, "bad")
+  | "crashjt" :: k :: t :: rest =>
+    match k.toNat?, t.toNat?, parseOp rest with
+    | some k, some t, some op =>
+      (j, match (crashDisk j.disk (opPrims j op) k t).jtmp with
+          | none => "absent"
+          | some f => toHex f)
+    | _, _, _ => (j, "bad")
+  | ["jt"] => (j, match j.disk.jtmp with
+                  | none => "absent"
+                  | some f => toHex f)
   | _ =>
     match parseOp toks with
     | some op =>
